@@ -1055,7 +1055,8 @@ impl Stdfs {
             if !path.exists() {
                 fs::create_dir(&path)?;
                 fs::set_permissions(&path, fs::Permissions::from_mode(mode))?;
-            } else if !path.is_dir() {
+            } else if !path.is_dir() || (path == abs && !Stdfs::is_dir(&path)) {
+                // link exclusion for the target itself like mkdir_p
                 return Err(PathError::is_not_dir(&path).into());
             }
         }
